@@ -79,6 +79,7 @@ def meyer_wallach_entanglement(vector: np.ndarray) -> float:
         float: the entanglement which is between 0 and 1 (highest is 1)
 
     """
+    vector = np.asarray(vector)
     num_qb = _to_qubits(vector.shape[0])
     meyer_wallach_entry = np.zeros(shape=(num_qb, 1))
     for j in range(num_qb):
